@@ -551,6 +551,85 @@ impl<'a> Lower<'a> {
     }
 }
 
+// R14: RAII guards -------------------------------------------------------------------------------
+// `let _g = Guard { .. };` whose Drop runs RESET at scope exit: the statement is removed and RESET is
+// made explicit on every way out of the rest of the block — `return`, `?` and the normal end.
+struct GuardExits {
+    reset: Vec<Stmt>,
+}
+impl VisitMut for GuardExits {
+    fn visit_expr_mut(&mut self, e: &mut Expr) {
+        // do not descend into closures (their `return` / `?` leave the closure, not the scope)
+        if let Expr::Closure(_) = e {
+            return;
+        }
+        visit_mut::visit_expr_mut(self, e);
+        let reset = &self.reset;
+        match e {
+            Expr::Return(r) => {
+                let val: Expr = match &r.expr {
+                    Some(v) => (**v).clone(),
+                    None => syn::parse_quote!(()),
+                };
+                *e = syn::parse_quote!({ let __g = #val; #(#reset)* return __g; });
+            }
+            Expr::Try(t) => {
+                let inner = (*t.expr).clone();
+                *e = syn::parse_quote!((match #inner { Ok(__v) => __v, Err(__e) => { #(#reset)* return Err(__e); } }));
+            }
+            _ => {}
+        }
+    }
+}
+fn apply_guard(b: &mut Block, pat: &[PTok], reset: &[Stmt], is_fn_body: bool) -> bool {
+    let mut at = None;
+    for (i, s) in b.stmts.iter().enumerate() {
+        if match_stmt(pat, s, false).is_some() {
+            at = Some(i);
+            break;
+        }
+    }
+    if let Some(i) = at {
+        let mut rest: Vec<Stmt> = b.stmts.split_off(i + 1);
+        b.stmts.pop(); // the guard statement itself
+        let mut ge = GuardExits { reset: reset.to_vec() };
+        for s in rest.iter_mut() {
+            ge.visit_stmt_mut(s);
+        }
+        // normal end of the scope
+        let tail_is_value = matches!(rest.last(), Some(Stmt::Expr(_, None)));
+        if tail_is_value {
+            if let Some(Stmt::Expr(te, None)) = rest.pop() {
+                let new_tail: Stmt = Stmt::Expr(syn::parse_quote!({ let __g = #te; #(#reset)* __g }), None);
+                rest.push(new_tail);
+            }
+        } else {
+            rest.extend(reset.iter().cloned());
+        }
+        let _ = is_fn_body;
+        b.stmts.extend(rest);
+        return true;
+    }
+    // search nested blocks
+    struct Finder<'p> { pat: &'p [PTok], reset: &'p [Stmt], done: bool }
+    impl<'p> VisitMut for Finder<'p> {
+        fn visit_block_mut(&mut self, b: &mut Block) {
+            if self.done { return; }
+            if apply_guard(b, self.pat, self.reset, false) { self.done = true; return; }
+        }
+        fn visit_expr_mut(&mut self, e: &mut Expr) {
+            if self.done { return; }
+            visit_mut::visit_expr_mut(self, e);
+        }
+    }
+    let mut f = Finder { pat, reset, done: false };
+    for s in b.stmts.iter_mut() {
+        visit_mut::visit_stmt_mut(&mut f, s);
+        if f.done { return true; }
+    }
+    false
+}
+
 // loop numbering -------------------------------------------------------------------------------
 struct LoopMarker {
     n: usize,
@@ -953,6 +1032,20 @@ fn emit_target(ctx: &mut Ctx, unit: &Unit, t: &Target) -> Emitted {
         }
     }
 
+    // R14 guards (before lowering, on the source statements)
+    {
+        let visible = unit.visible(&t.spec_file);
+        let mut all: Vec<&Rule> = t.rules.iter().collect();
+        all.extend(unit.rules.iter().filter(|r| visible.contains(&r.file)));
+        for r in all.iter().filter(|r| r.kind == "guard") {
+            let ts = match instantiate(&r.tpl, &pat::Binds::new()) { Ok(t) => t, Err(m) => die(&format!("{}: {}", r.origin, m)) };
+            let blk: Block = match syn::parse2(quote!({ #ts })) { Ok(b) => b, Err(e) => die(&format!("{}: guard reset does not parse: {}", r.origin, e)) };
+            let applied = apply_guard(&mut block, &r.pat, &blk.stmts, true);
+            if !applied && r.required {
+                die(&format!("lost anchor: target {} — guard statement not found: {}", t.name, r.src));
+            }
+        }
+    }
     // lowering
     let mut rules: Vec<&Rule> = Vec::new();
     rules.extend(t.rules.iter());
@@ -990,7 +1083,17 @@ fn emit_target(ctx: &mut Ctx, unit: &Unit, t: &Target) -> Emitted {
     if mut_self && t.sig.is_none() {
         lw.note("by-value `mut self` -> `self` rebound as `let mut __self = self`");
     }
-    strip_vis_and_attrs_sig(&mut sig, &drop_g, t.keep_where);
+    // a generic parameter that a type rule maps to a concrete type (`@type R =>> RetS`) leaves the
+    // parameter list, but (unlike @dropgeneric) stays in argument lists so that the rule can rewrite it
+    let mut sig_drop = drop_g.clone();
+    for r in lw.rules.iter() {
+        if r.kind == "type" && r.pat.len() == 1 {
+            if let PTok::Tok(proc_macro2::TokenTree::Ident(id)) = &r.pat[0] {
+                sig_drop.push(id.to_string());
+            }
+        }
+    }
+    strip_vis_and_attrs_sig(&mut sig, &sig_drop, t.keep_where);
     lw.visit_signature_mut(&mut sig);
     if let Some(r) = &t.rename {
         sig.ident = syn::Ident::new(r, Span::call_site());
